@@ -17,6 +17,8 @@ package main
 //             offset of every stream name (stdout, stderr and "" — the last one must be ignored)
 //           obs = per op: (0) In returned 0 | (1 #payload mark) delivered | (2) panic | (3) accepted
 //                 but never delivered;  Maintenance: (counters)
+//  which=4  the real Antispammer with exceptions as concrete matchrule rule sets: see rules.go
+//  which=5  as which=3 with CRI rows that carry their own time / stream and per-stream saved offsets: see critimes.go
 
 import (
 	"bytes"
@@ -254,6 +256,12 @@ func c20Pipeline(cs hx.Sx) hx.Sx {
 		s.Decoder = "cri"
 	}
 	s.Antispam.Threshold = T
+	v5 := len(it) > 8 // which = 5: (… (op ...) MI), ops carry per-stream saved offsets, the stream and the row time
+	if v5 {
+		// the event-time window of IsSpam; the pipeline's own maintenance goroutine sleeps for the same duration, so
+		// the generator only uses values far above the run time of a case (it never fires)
+		s.Antispam.MaintenanceInterval = time.Duration(hx.Int(it[8]))
+	}
 	c20PipeSeq++
 	p := pipeline.New("c20_in_"+strconv.Itoa(c20PipeSeq), s, prometheus.NewRegistry(), zap.NewNop())
 	p.DisableParallelism()
@@ -311,9 +319,24 @@ func c20Pipeline(cs hx.Sx) hx.Sx {
 		}
 		id := int(hx.Int(o[1]))
 		isNew := hx.Truth(o[2])
-		cur, soff := hx.Int(o[3]), hx.Int(o[4])
-		rec := hx.Bytes(o[5])
-		offs := pipeline.NewOffsets(cur, pipeline.SliceFromMap(map[pipeline.StreamName]int64{"": soff, "stdout": soff, "stderr": soff}))
+		cur := hx.Int(o[3])
+		var rec []byte
+		var offs pipeline.Offsets
+		if v5 {
+			so := hx.Items(o[4])
+			rec = hx.Bytes(o[7])
+			m := map[pipeline.StreamName]int64{}
+			for k, name := range []pipeline.StreamName{"stdout", "stderr", ""} {
+				if v := hx.Int(so[k]); v != -2 { // -2: the stream has no saved offset
+					m[name] = v
+				}
+			}
+			offs = pipeline.NewOffsets(cur, pipeline.SliceFromMap(m))
+		} else {
+			soff := hx.Int(o[4])
+			rec = hx.Bytes(o[5])
+			offs = pipeline.NewOffsets(cur, pipeline.SliceFromMap(map[pipeline.StreamName]int64{"": soff, "stdout": soff, "stderr": soff}))
+		}
 		var seq uint64
 		if msg := hx.Catch(func() {
 			seq = p.In(pipeline.SourceID(id+1), "src"+strconv.Itoa(id), offs, rec, isNew, nil)
@@ -341,8 +364,10 @@ func c20Exec(which int, cs hx.Sx) hx.Sx {
 		return c20Admit(cs)
 	case 1, 2:
 		return c20Antispam(cs)
-	case 3:
+	case 3, 5:
 		return c20Pipeline(cs)
+	case 4:
+		return c20RulesExec(cs)
 	}
 	panic("c20: unknown which")
 }
@@ -740,10 +765,14 @@ func c20Gen(c *hmain.Ctx) {
 		c.Do("pipeline-in", 3, hx.L(hx.I(max), hx.Bool(cutoff), hx.Bool(mark), hx.I(dec), hx.I(T),
 			hx.I(pipeline.VerifC20UnbanIterations), hx.I(nsrc), hx.L(ops...)), true)
 	}
+
+	// new streams go last so that the random streams above keep their cases for a given seed
+	c20GenRules(c)    // 10..14: matchrule shapes, threshold width
+	c20GenCriTimes(c) // 15: the real pipeline, CRI rows with their own times / streams / saved offsets
 }
 
 func main() {
 	hmain.Run(&hmain.Prop{ID: "C20",
-		Rule: "admit-exhaustive: every record over {a,\\n} up to the tier's length x every limit 0..L+1 x cutoff; antispam-exhaustive: every op sequence over {quick, slow, new-source event, Maintenance} up to the tier's length x T in 1..3 x U in 1..2 on the real Antispammer; random/adversarial streams as named. Non-trivial = oversize record with a limit / op sequence with events and a round longer than T / every random, rules, residual and pipeline case; distinct = distinct (sub-model, case) text.",
+		Rule: "admit-exhaustive: every record over {a,\\n} up to the tier's length x every limit 0..L+1 x cutoff; antispam-exhaustive: every op sequence over {quick, slow, new-source event, Maintenance} up to the tier's length x T in 1..3 x U in 1..2 on the real Antispammer; matchrule-exhaustive: one exception of one rule, every mode x case_insensitive x invert x five value sets, the data over every string over {a,b,B} up to the tier's length; random/adversarial streams as named. Non-trivial = oversize record with a limit / op sequence with events and a round longer than T / every random, rules, residual and pipeline case; distinct = distinct (sub-model, case) text.",
 		Gen:  c20Gen, Exec: c20Exec})
 }
